@@ -9,8 +9,12 @@ package main
 // `advance` sleeps past every armed (fake-clock) deadline. The transcript is replayed on the Lean driver,
 // which keeps the set of model states consistent with the observations (exploring every interleaving of the
 // model's internal steps up to quiescence) and rejects an observation no model run can produce
-// (= divergence). Because sync.Mutex waits are not durably blocking for synctest, at most one Write per
-// end is in flight here; concurrent writers are the business of engine "conc".
+// (= divergence). sync.Mutex waits are not durably blocking for synctest, so a second Write on an end whose
+// first Write is blocked (holding wrMu) is issued WITHOUT waiting for quiescence (`nq call`), immediately
+// followed by ops that make the lock holder return (a partial read + a read with room for everything it has
+// left, or a close, or a past write deadline); the driver starts such calls without running to quiescence and
+// explores every interleaving of their steps with the next call's, so both orders of "who reaches the lock /
+// the channel first" are model alternatives and `atomic_writes` is exercised against the model.
 //
 // Besides the driver comparison a small oracle written from the property statement judges each step
 // (exact, because calls are issued sequentially): calls after a close / an expired deadline fail at once
@@ -175,7 +179,7 @@ type lsRun struct {
 	chunks   [2][][]byte // everything read on d
 	wids     [2]int      // writes issued on d
 	wflight  [2]int      // Writes of end e in flight (2 = one of them queued behind wrMu)
-	release  int         // 1 + end whose queued Write must be released by the very next op (0 = none)
+	queue    []LOp       // ops that must follow a queued Write at once (they make the lock holder return)
 	lastLen  int
 	sawErr   bool
 	nchunks  int
@@ -465,21 +469,10 @@ func (x *lsRun) pickCap() int {
 func (x *lsRun) next(step, total int) (LOp, bool) {
 	r := x.r
 	main := 2 * x.W
-	if x.release > 0 {
-		// a Write is parked on wrMu behind a blocked Write (not durably blocked for synctest): the next op must
-		// make the lock holder return, else the bubble never becomes quiescent
-		e := x.release - 1
-		x.release = 0
-		k := r.Intn(10)
-		if ts := x.idle(1 - e); k < 6 && len(ts) > 0 {
-			return LOp{T: common.Pick(r, ts), E: 1 - e, K: "r", N: 24}, true
-		}
-		switch {
-		case k < 8:
-			return common.Pick(r, []LOp{{T: main, E: 1 - e, K: "cr"}, {T: main, E: e, K: "cw"}, {T: main, E: e, K: "c"}, {T: main, E: 1 - e, K: "c"}}), true
-		default:
-			return LOp{T: main, E: e, K: common.Pick(r, []string{"swd", "sd"}), D: "past"}, true
-		}
+	if len(x.queue) > 0 {
+		op := x.queue[0]
+		x.queue = x.queue[1:]
+		return op, true
 	}
 	for try := 0; try < 20; try++ {
 		e := r.Intn(2)
@@ -493,8 +486,23 @@ func (x *lsRun) next(step, total int) (LOp, bool) {
 			if ts := x.idle(e); len(ts) > 0 && x.wflight[e] == 0 && x.wids[e] < 31 {
 				return LOp{T: common.Pick(r, ts), E: e, K: "w", N: r.Intn(9)}, true
 			} else if len(ts) > 0 && x.wflight[e] == 1 && x.wids[e] < 31 && step+2 < total {
-				// second concurrent Write on this end: it queues behind wrMu (atomic writes, against the model)
-				x.release = e + 1
+				// second concurrent Write on this end: it parks on wrMu behind the blocked Write, which is NOT a
+				// durable block for synctest: the ops queued here follow without waiting for quiescence and make
+				// the lock holder return (reads with enough room for all it has left / close / write deadline), so
+				// that the bubble becomes quiescent again. With two reads the first one takes only part of the
+				// holder's bytes: the parked Write must not get in between (atomic writes, against the model).
+				rs := x.idle(1 - e)
+				k := r.Intn(10)
+				switch {
+				case k < 6 && len(rs) >= 2 && !x.rdl[e].expired:
+					x.queue = []LOp{{T: rs[0], E: 1 - e, K: "r", N: r.Intn(5), NQ: true}, {T: rs[1], E: 1 - e, K: "r", N: 24}}
+				case k < 8 && len(rs) >= 1 && !x.rdl[e].expired:
+					x.queue = []LOp{{T: rs[0], E: 1 - e, K: "r", N: 24}}
+				case k < 9:
+					x.queue = []LOp{common.Pick(r, []LOp{{T: main, E: 1 - e, K: "cr"}, {T: main, E: e, K: "cw"}, {T: main, E: e, K: "c"}, {T: main, E: 1 - e, K: "c"}})}
+				default:
+					x.queue = []LOp{{T: main, E: e, K: common.Pick(r, []string{"swd", "sd"}), D: "past"}}
+				}
 				return LOp{T: common.Pick(r, ts), E: e, K: "w", N: r.Intn(9), NQ: true}, true
 			}
 		case k < 70: // writeTo
@@ -521,6 +529,9 @@ func (x *lsRun) next(step, total int) (LOp, bool) {
 
 func (x *lsRun) exec(step int, op LOp) bool {
 	main := 2 * x.W
+	if os.Getenv("C15_LS_DEBUG") != "" {
+		fmt.Fprintf(os.Stderr, "step %d: %+v\n", step, op)
+	}
 	switch op.K {
 	case "adv":
 		time.Sleep(2 * time.Hour)
@@ -534,7 +545,7 @@ func (x *lsRun) exec(step int, op LOp) bool {
 		}
 		x.line("advance")
 	case "r", "w", "wt":
-		if op.T < 0 || op.T >= main || x.ws[op.T].busy || op.T/x.W != op.E || (op.K == "w" && !op.NQ && x.wflight[op.E] != 0) || (op.NQ && (op.K != "w" || x.wflight[op.E] != 1)) {
+		if op.T < 0 || op.T >= main || x.ws[op.T].busy || op.T/x.W != op.E || (op.K == "w" && !op.NQ && x.wflight[op.E] != 0) || (op.NQ && op.K == "w" && x.wflight[op.E] != 1) || (op.NQ && op.K == "wt") {
 			return false // replay of a script that no longer fits (behaviour changed)
 		}
 		w := x.ws[op.T]
@@ -552,7 +563,11 @@ func (x *lsRun) exec(step int, op LOp) bool {
 			}
 			x.line("%scall %d %d w %s", nq, op.T, op.E, hexField(lsPayload(op.Wid, op.N)))
 		} else if op.K == "r" {
-			x.line("call %d %d r %d", op.T, op.E, op.N)
+			nq := ""
+			if op.NQ {
+				nq = "nq "
+			}
+			x.line("%scall %d %d r %d", nq, op.T, op.E, op.N)
 		} else {
 			ff := 0
 			if op.FF {
@@ -574,7 +589,9 @@ func (x *lsRun) exec(step int, op LOp) bool {
 		if op.NQ {
 			// parked on wrMu (or still on its way there): no quiescence to wait for; the next op releases the holder
 			x.res.Case.Steps = append(x.res.Case.Steps, op)
-			x.res.Counts = append(x.res.Counts, "ls:queued-writer")
+			if op.K == "w" {
+				x.res.Counts = append(x.res.Counts, "ls:queued-writer")
+			}
 			return true
 		}
 		synctest.Wait()
@@ -725,7 +742,7 @@ func lsSpawn(spec string) ([]lsResult, error) {
 	}
 	f.Close()
 	defer os.Remove(f.Name())
-	ctx, cancel := context.WithTimeout(context.Background(), 10*time.Minute)
+	ctx, cancel := context.WithTimeout(context.Background(), 4*time.Minute)
 	defer cancel()
 	cmd := exec.CommandContext(ctx, os.Args[0])
 	cmd.Env = append(os.Environ(), envLS+"="+spec+":"+f.Name())
